@@ -52,7 +52,7 @@ def handle (c : Case) : Verdict :=
         else if kind == "s" then firstSome segs (checkSession size impl)
         else firstSome segs (Ptwin.checkSeg size slide impl)
       { out := c.implOut, oracle, nontrivial := impl.length ≥ 2 && allVals.length ≥ 2,
-        tags := [if kind == "s" then "session" else if slide == size then "tumbling" else "sliding",
+        tags := ["nodiff", if kind == "s" then "session" else if slide == size then "tumbling" else "sliding",
                  s!"results{min impl.length 4}"] }
     | _, _ => { out := [], oracle := some "bad header", nontrivial := false }
   | _ => { out := [], oracle := some "bad header", nontrivial := false }
